@@ -3,6 +3,14 @@
 // Contracts for /verif (build tag "verif"): //@ comment blocks and pure ghost functions only.
 package sys
 
+import (
+	"github.com/tetratelabs/wazero/experimental/sys"
+	"github.com/tetratelabs/wazero/internal/descriptor"
+	"github.com/tetratelabs/wazero/internal/fsapi"
+)
+
+var _ sys.Errno
+
 //@ prop C16 C17 C19
 //@ func StripPrefixesAndTrailingSlash(path string) string
 //@   ensures len(r0) <= len(path)
@@ -11,3 +19,49 @@ package sys
 //@     invariant 0 <= pathLen && pathLen <= len(path)
 //@   loop 1 (pathLen int, pathI int)
 //@     invariant 0 <= pathI && pathI <= pathLen && pathLen <= len(path)
+
+// ---- the descriptor table of an instance (C16, C15) ----
+
+// fdHas / fdGet: abstract view of the file table: descriptor k is open / the entry it maps to.
+func fdHas(c *FSContext, k int) bool       { return descriptor.VerifTabHas(&c.openedFiles, k) }
+func fdGet(c *FSContext, k int) *FileEntry { return descriptor.VerifTabGet(&c.openedFiles, k) }
+
+// fileClosed: ghost flag set by File.Close.
+func fileClosed(f fsapi.File) bool { return verif_ghost_flag("closed", f) }
+
+// fscInv: table representation invariant; every open descriptor maps to an entry with a file.
+func fscInv(c *FSContext) bool {
+	return descriptor.VerifTabInv(&c.openedFiles) &&
+		verif_forall(func(k int) bool { return !fdHas(c, k) || (fdGet(c, k) != nil && fdGet(c, k).File != nil) })
+}
+
+// Closing a file marks it closed and touches nothing else the runtime can observe.
+//@ prop C16 C15
+//@ iface (f fsapi.File) Close() sys.Errno
+//@   ensures fileClosed(f)
+//@   modifies ghostflag("closed", f)
+
+//@ func (c *FSContext) LookupFile(fd int32) (*FileEntry, bool)
+//@   requires fscInv(c)
+//@   ensures r1 == fdHas(c, int(fd))
+//@   ensures r1 ==> r0 == fdGet(c, int(fd)) && r0 != nil
+//@   modifies nothing
+
+//@ func (c *FSContext) CloseFile(fd int32) (errno sys.Errno)
+//@   requires fscInv(c)
+//@   ensures[inv] fscInv(c)
+//@   ensures[bad-fd] !old(fdHas(c, int(fd))) ==> errno == sys.EBADF
+//@   ensures[removed] errno == 0 ==> !fdHas(c, int(fd)) && fileClosed(old(fdGet(c, int(fd)).File))
+//@   ensures[error-keeps] errno != 0 ==> fdHas(c, int(fd)) == old(fdHas(c, int(fd)))
+//@   ensures[others] forall k int :: k != int(fd) ==> fdHas(c, k) == old[bool](fdHas(c, k)) && (fdHas(c, k) ==> fdGet(c, k) == old[*FileEntry](fdGet(c, k)))
+//@   modifies elems(descriptor.VerifMasks(&c.openedFiles)), elems(descriptor.VerifItems(&c.openedFiles)), ghostflag("closed", fdGet(c, int(fd)).File)
+
+//@ func (c *FSContext) Renumber(from, to int32) sys.Errno
+//@   requires fscInv(c) && to < 1<<29
+//@   ensures[inv] fscInv(c)
+//@   ensures[moved] r0 == 0 ==> fdHas(c, int(to)) && fdGet(c, int(to)) == old(fdGet(c, int(from))) && (from != to ==> !fdHas(c, int(from)))
+//@   ensures[self-is-noop] from == to && r0 == 0 ==> fileClosed(fdGet(c, int(to)).File) == old(fileClosed(fdGet(c, int(from)).File))
+//@   ensures[others] r0 == 0 ==> forall k int :: k != int(from) && k != int(to) ==> fdHas(c, k) == old[bool](fdHas(c, k)) && (fdHas(c, k) ==> fdGet(c, k) == old[*FileEntry](fdGet(c, k)))
+//@   ensures[error-changes-nothing] r0 != 0 ==> forall k int :: fdHas(c, k) == old[bool](fdHas(c, k)) && (fdHas(c, k) ==> fdGet(c, k) == old[*FileEntry](fdGet(c, k)))
+//@   ensures[bad-source] (!old(fdHas(c, int(from))) || to < 0) ==> r0 == sys.EBADF
+//@   modifies obj(&c.openedFiles), elems(descriptor.VerifMasks(&c.openedFiles)), elems(descriptor.VerifItems(&c.openedFiles)), ghostflag("closed", fdGet(c, int(to)).File)
